@@ -687,7 +687,13 @@ func writeChunkedSegment(ctx context.Context, log *slog.Logger, w http.ResponseW
 	// The rest are returned HTTP chunks as time passes.
 	// In general, we should extract all the samples and build a new one with the right fragment duration.
 	// That fragment/chunk duration is segment_duration-availabilityTimeOffset.
-	chunkDur := (a.SegmentDurMS - int(cfg.AvailabilityTimeOffsetS*1000)) * int(rep.MediaTimescale) / 1000
+	// The chunk duration is what the availabilityTimeOffset leaves of THIS segment: the segments of an asset
+	// may differ in duration, and each one is announced as available at its own end minus the offset.
+	chunkDur := int(so.meta.newDur) - int(cfg.AvailabilityTimeOffsetS*1000)*int(rep.MediaTimescale)/1000
+	if chunkDur <= 0 {
+		return fmt.Errorf("availabilityTimeOffset %.3fs is not shorter than the segment (%d ticks)",
+			cfg.AvailabilityTimeOffsetS, so.meta.newDur)
+	}
 	chunks, err := chunkSegment(rep.initSeg, seg, so.meta, chunkDur)
 	if err != nil {
 		return fmt.Errorf("chunkSegment: %w", err)
